@@ -190,6 +190,26 @@ def _observe(case):
         res[f'bio_scaled={scaled}'] = dict(f=float(r.function), g=_arr(r.gradient), h=_arr(r.hessian),
                                            b=_arr(r.bhhh))
     res['bio_like'] = float(the.calculate_likelihood(x, scaled=False))
+    # a result obtained earlier must keep its content when the object is evaluated again elsewhere
+    first = the.calculate_likelihood_and_derivatives(x, scaled=False, hessian=True, bhhh=True)
+    x_other = [v + 0.375 for v in x]
+    try:
+        the.calculate_likelihood_and_derivatives(x_other, scaled=False, hessian=True, bhhh=True)
+        res['bio_first_after_second'] = dict(f=float(first.function), g=_arr(first.gradient), h=_arr(first.hessian), b=_arr(first.bhhh))
+    except Exception:  # the other point may be outside the domain: the clause is not judged then
+        pass
+    # the formula in a dictionary next to another formula that has one more free parameter
+    if case.get('extra_beta'):
+        from biogeme.expressions import Beta as _B
+
+        e5 = build.Builder(case['shared'], overloads=case['overloads']).build(case['roots'][0])
+        the2 = bio.BIOGEME(build.build_database(case['table']),
+                           {'log_like': e5, 'other': e5 * 0 + _B(case['extra_beta'], 0.5, None, None, 0)}, parameters=params)
+        the2.save_iterations = the2.generate_html = the2.generate_pickle = False
+        names2 = list(the2.free_beta_names)
+        x2 = [0.5 if n == case['extra_beta'] else case['point'][n] for n in names2]
+        r2 = the2.calculate_likelihood_and_derivatives(x2, scaled=False, hessian=True, bhhh=True)
+        res['bio_dict'] = dict(names=names2, f=float(r2.function), g=_arr(r2.gradient), h=_arr(r2.hessian), b=_arr(r2.bhhh))
     if x:
         cd = the.check_derivatives(x, verbose=False)
         res['check_derivatives'] = dict(f=float(cd[0]), g=_arr(cd[1]), h=_arr(cd[2]), gdiff=_arr(cd[3]),
@@ -213,7 +233,9 @@ def judge(case) -> Outcome:
         out.skipped = 'no free parameter in the formula'
         return out
     n_rows = len(jets)
-    case = dict(case, free_sorted=names, point=point)
+    # a parameter of ANOTHER formula given to BIOGEME next to this one; its name sorts anywhere among the others
+    unused = [n for n in gen.BETA_NAMES if n not in point]
+    case = dict(case, free_sorted=names, point=point, extra_beta=unused[case['np_seed'] % len(unused)] if unused else None)
     f_ref = np.array([j[0] for j in jets])
     g_ref = np.array([j[1] for j in jets]).reshape(n_rows, k)
     h_ref = np.array([j[2] for j in jets]).reshape(n_rows, k, k)
@@ -341,6 +363,33 @@ def judge(case) -> Outcome:
             chk(f'biogeme:{tag}:hessian', r['h'], H / div, Hs / div, f'BIOGEME {tag} Hessian')
             chk(f'biogeme:{tag}:bhhh', r['b'], B / div, Bs / div, f'BIOGEME {tag} BHHH')
     chk('biogeme:likelihood', o['bio_like'], f_ref.sum(), fs * n_rows, 'BIOGEME.calculate_likelihood')
+    if k and 'bio_first_after_second' in o:
+        r = o['bio_first_after_second']
+        chk('biogeme:earlier_result_after_new_evaluation:gradient', r['g'], G, Gs,
+            'gradient held by a result object after the same BIOGEME object was evaluated at another point')
+        chk('biogeme:earlier_result_after_new_evaluation:hessian', r['h'], H, Hs,
+            'Hessian held by a result object after the same BIOGEME object was evaluated at another point')
+        chk('biogeme:earlier_result_after_new_evaluation:bhhh', r['b'], B, Bs,
+            'BHHH held by a result object after the same BIOGEME object was evaluated at another point')
+    if k and 'bio_dict' in o:
+        r = o['bio_dict']
+        want_names = sorted(names + [case['extra_beta']])
+        if r['names'] != want_names:
+            out.fail(prefix + 'biogeme:dict_of_formulas:free_beta_names',
+                     f'free_beta_names {r["names"]} for formulas whose free parameters are {want_names}' + where)
+        else:
+            pos = [want_names.index(n) for n in names]
+            extra = want_names.index(case['extra_beta'])
+            G2 = np.zeros(k + 1)
+            G2[pos] = G
+            H2 = np.zeros((k + 1, k + 1))
+            H2[np.ix_(pos, pos)] = H
+            B2 = np.zeros((k + 1, k + 1))
+            B2[np.ix_(pos, pos)] = B
+            chk('biogeme:dict_of_formulas:gradient', r['g'], G2, Gs, f'gradient in the order of free_beta_names {want_names} '
+                                                                     f'(entry {extra} belongs to a parameter of another formula)')
+            chk('biogeme:dict_of_formulas:hessian', r['h'], H2, Hs, f'Hessian in the order of free_beta_names {want_names}')
+            chk('biogeme:dict_of_formulas:bhhh', r['b'], B2, Bs, f'BHHH in the order of free_beta_names {want_names}')
     if k and 'check_derivatives' in o:
         cd = o['check_derivatives']
         chk('check_derivatives:gradient', cd['g'], G, Gs, 'check_derivatives analytical gradient')
